@@ -216,8 +216,8 @@ def checkJustify (text : List Int) (w : Int) (od : Options Int) (out : List Int)
 /-- C12 in paragraph mode, for paragraph separators made of line separators and the default trailing policy:
 the whole text's decomposition into lines is unaffected by paragraph mode, so the number of lines and the
 trailing separator are unchanged and every line comes out untouched (a paragraph's last line), merely
-space-collapsed, or justified as specified.  A necessary condition only (which line is a paragraph's last
-one is C11's homomorphism clause). -/
+space-collapsed, or justified as specified; the last line of every paragraph (located through the paragraph
+decomposition of C11) is untouched unless JustifyLastLine. -/
 def checkJustifyPara (text : List Int) (w : Int) (od : Options Int) (out : List Int) : String :=
   let sep := od.lineSep
   let made := !sep.isEmpty && !od.paraSep.isEmpty && od.paraSep.length % sep.length == 0 &&
@@ -230,13 +230,27 @@ def checkJustifyPara (text : List Int) (w : Int) (od : Options Int) (out : List 
     if ins.length != outs.length then "fail:C12 number of lines changed (paragraph mode)"
     else if (sep.isSuffixOf text) != (sep.isSuffixOf out) then "fail:C12 trailing separator changed (paragraph mode)"
     else if !stableDom [text] [sep] then "ok"
-    else Id.run do
-      for (li, lo) in ins.zip outs do
-        if li != lo then
-          match checkJustifyLine w li lo with
-          | some e => return "fail:" ++ e ++ " (paragraph mode)"
-          | none => pure ()
-      return "ok"
+    else
+      -- which of the whole text's lines is the LAST line of a paragraph: the line that ends the prefix
+      -- p₀ ++ PS ++ … ++ pᵢ, for every piece pᵢ that has a line at all
+      let pieces : List (List Int) := match paraCalls (.root text od) od with
+        | .ok cs => cs.map (·.1) | .error _ => []
+      if pieces.isEmpty ∨ joinWith od.paraSep pieces != text then "skip:paragraph-decomposition"
+      else
+        let lastIdx : List Nat := (List.range pieces.length).filterMap fun i =>
+          if (Spec.bareLines (pieces.getD i []) sep false).isEmpty then none
+          else
+            let c := (Spec.bareLines (joinWith od.paraSep (pieces.take (i + 1))) sep false).length
+            if c == 0 then none else some (c - 1)
+        Id.run do
+          for ((li, lo), j) in (ins.zip outs).zipIdx do
+            if lastIdx.contains j ∧ !od.justifyLast then
+              if li != lo then return "fail:C12 last line of a paragraph was touched (paragraph mode)"
+            else
+              match checkJustifyLine w li lo with
+              | some e => return "fail:" ++ e ++ " (paragraph mode)"
+              | none => pure ()
+          return "ok"
 
 def checkAlign (text : List Int) (al w : Int) (od : Options Int) (out : List Int) : String :=
   if al == Gen.alignNone ∨ (al != Gen.alignLeft ∧ al != Gen.alignRight ∧ al != Gen.alignCenter) then
